@@ -142,6 +142,38 @@ def check_step(case, ctx):
             if q is not None:
                 ctx.le("dead-reckoning step = normalised first-order step q + dt/2 q (0,w) (each in its own convention)",
                        np.abs(q / np.linalg.norm(q) - ref).max(), 1e-14, {"got": q, "expected": ref, "x": float(np.linalg.norm(w) * dt)}, route=r)
+    # the same step from an instance that has already processed ordinary samples (carrying whatever internal state the
+    # filter keeps: integral bias, adaptive gain, previous sample), and from one built with a non-zero initial bias
+    wr = np.random.default_rng(int(abs(w[0]) * 1e9) % (2 ** 31))
+    warm = [(wr.standard_normal(3) * 0.5, gens.axis(wr) * 9.81, gens.axis(wr) * 50.0) for _ in range(int(wr.integers(2, 9)))]
+
+    def warmed(f, imu):
+        q = np.array([1.0, 0.0, 0.0, 0.0])
+        for g_, a_, m_ in warm:
+            q = f.updateIMU(q, g_.copy(), a_.copy()) if imu else f.updateMARG(q, g_.copy(), a_.copy(), m_.copy())
+        return f
+    b0 = wr.standard_normal(3) * 0.05
+    hist = {
+        "first-order/Madgwick.updateIMU": (lambda: warmed(F.Madgwick(), True).updateIMU(q0.copy(), w.copy(), z.copy(), dt=dt), first),
+        "first-order/Madgwick.updateMARG": (lambda: warmed(F.Madgwick(), False).updateMARG(q0.copy(), w.copy(), z.copy(), m.copy(), dt=dt), first),
+        "first-order/Mahony.updateIMU": (lambda: warmed(F.Mahony(), True).updateIMU(q0.copy(), w.copy(), z.copy(), dt=dt), first),
+        "first-order/Mahony.updateMARG": (lambda: warmed(F.Mahony(), False).updateMARG(q0.copy(), w.copy(), z.copy(), m.copy(), dt=dt), first),
+        "first-order/AQUA.updateIMU": (lambda: warmed(F.AQUA(adaptive=True), True).updateIMU(q0.copy(), w.copy(), z.copy(), dt=dt), first_aqua),
+        "first-order/AQUA.updateMARG": (lambda: warmed(F.AQUA(adaptive=True), False).updateMARG(q0.copy(), w.copy(), z.copy(), m.copy(), dt=dt), first_aqua),
+    }
+    for r, (fn, ref) in hist.items():
+        out = call(fn)
+        if ctx.returned(out, route=r):
+            q = np.asarray(out.value, float)
+            ctx.le("an instance that has already processed samples dead-reckons by the same first-order step",
+                   np.abs(q / np.linalg.norm(q) - ref).max(), 1e-14, {"got": q, "expected": ref, "warm_up_samples": len(warm)}, route=r)
+    for r, fn in (("first-order/Mahony.updateIMU", lambda: F.Mahony(b0=b0.copy()).updateIMU(q0.copy(), w.copy(), z.copy(), dt=dt)),
+                  ("first-order/Mahony.updateMARG", lambda: F.Mahony(b0=b0.copy()).updateMARG(q0.copy(), w.copy(), z.copy(), m.copy(), dt=dt))):
+        out = call(fn)
+        if ctx.returned(out, route=r):
+            q = np.asarray(out.value, float)
+            ctx.le("an instance built with an initial bias estimate dead-reckons by the same first-order step",
+                   np.abs(q / np.linalg.norm(q) - first).max(), 1e-14, {"got": q, "expected": first, "b0": b0}, route=r)
     # the dead-reckoned step must also use the instance's own sampling step when dt is not passed
     fr = 1.0 / dt
     for r, fn, ref in (("first-order/Madgwick.updateIMU", lambda: F.Madgwick(frequency=fr).updateIMU(q0.copy(), w.copy(), z.copy()), first),
